@@ -27,6 +27,11 @@ type Job struct {
 	Cfg       dkgsys.Config
 	D         int // max number of deviations per script
 	MaxStates int // 0: unbounded
+	// BoundedOrder: explore delivery orders with at most Reorder deviations from the default
+	// schedule (dkgsys.ExploreBounded) instead of all of them. Used only for the configurations
+	// whose unbounded order space is too large (Joint-Feldman with >= 3 honest participants).
+	BoundedOrder bool
+	Reorder      int
 }
 
 type replayFile struct {
@@ -112,7 +117,11 @@ func Run(run *ev.Run, prop string, jobs []Job) {
 		for _, sc := range scs {
 			units = append(units, unit{j, sc})
 		}
-		jobInfo = append(jobInfo, map[string]any{"config": j.Cfg.String(), "deviation_bound": j.D, "single_deviations": len(g), "scripts": len(scs)})
+		order := "unbounded (every interleaving of deliveries)"
+		if j.BoundedOrder {
+			order = fmt.Sprintf("<= %d deviations from the default delivery schedule", j.Reorder)
+		}
+		jobInfo = append(jobInfo, map[string]any{"config": j.Cfg.String(), "deviation_bound": j.D, "single_deviations": len(g), "scripts": len(scs), "delivery_order": order})
 	}
 	run.Set("jobs", jobInfo)
 	var statsMu sync.Mutex
@@ -123,7 +132,11 @@ func Run(run *ev.Run, prop string, jobs []Job) {
 		}
 		u := units[i]
 		cfg := u.job.Cfg
-		rep, err := dkgsys.Explore(&cfg, u.sc, u.job.MaxStates, func(prev *dkgsys.State, t dkgsys.Trans, next *dkgsys.State, evs []dkgsys.Event, path func() []dkgsys.Trans) {
+		rb := -1
+		if u.job.BoundedOrder {
+			rb = u.job.Reorder
+		}
+		rep, err := dkgsys.ExploreBounded(&cfg, u.sc, u.job.MaxStates, rb, func(prev *dkgsys.State, t dkgsys.Trans, next *dkgsys.State, evs []dkgsys.Event, path func() []dkgsys.Trans) {
 			c.edge(&cfg, u.sc, next, evs, path)
 		})
 		if err != nil {
